@@ -26,6 +26,8 @@ def spec_cursor_api():
         ('cursor_init', C.__init__, 'beanquery.cursor.Cursor.__init__'),
         ('cursor_execute', C.execute, 'beanquery.cursor.Cursor.execute'),
         ('cursor_connection', C.connection.fget, 'beanquery.cursor.Cursor.connection'),
+        ('cursor_executemany', C.executemany, 'beanquery.cursor.Cursor.executemany'),
+        ('cursor_iter', C.__iter__, 'beanquery.cursor.Cursor.__iter__'),
         ('column_init', Col.__init__, 'beanquery.cursor.Column.__init__'),
         ('column_len', Col.__len__, 'beanquery.cursor.Column.__len__'),
         ('column_getitem', Col.__getitem__, 'beanquery.cursor.Column.__getitem__'),
